@@ -27,6 +27,9 @@ OUTSIDE = "float rounding; photon numbers above the bound; the clifford backend 
 STUBS = ["thewalrus.perm -> definitional permanent", "U3 only: Backend.full_probability_distribution -> arbitrary non-negative symbolic distributions with total <= 1"]
 
 TAU = Fraction(1, 10**9)
+# the documented slack is 1e-9 per state: replays and the concrete validation compare at 1e-8
+# (float rounding is ~1e-16), not at the generic 1e-6
+REPLAY_TOL = 1e-8
 
 
 # ---------------------------------------------------------------------------
@@ -43,7 +46,7 @@ def h_slos_kernel(ctx, n, k):
     basis = ref.fock_states(n, k)
     ctx.check(sorted(list(key) for key in out) == sorted(basis), "slos:keys-are-the-full-fock-basis")
     for o in basis:
-        ctx.check_eq(out[tuple(o)], ref.fock_amp(ctx, A, inp, o), "slos:amplitude-is-fock-amplitude")
+        ctx.check_eq(out.get(tuple(o), 0), ref.fock_amp(ctx, A, inp, o), "slos:amplitude-is-fock-amplitude")
 
 
 # ---------------------------------------------------------------------------
